@@ -58,6 +58,57 @@ subcategory: Toys
 match: contains("APLPAY")
 category: Wallet
 '''
+# R3 / R4: read with rule_mode most_specific (first line, decoded by _load); identical rule names and match expressions,
+# only the priorities differ - so anything remembered per expression text across loads (a specificity, a compiled matcher,
+# a winner) shows up as a stale decision
+R3 = '''# mode: most_specific
+field.description = regex_replace(field.description, "^APLPAY\\\\s+", "")
+
+[Coffee]
+match: startswith("ALFA")
+category: Food
+subcategory: Coffee
+priority: 80
+
+[Alfa Store]
+match: contains("ALFA STORE")
+category: Shopping
+tags: r3
+
+[Charlie]
+match: contains("CHARLIE")
+category: Fun
+priority: 0
+
+[Shop]
+match: contains("SHOP")
+category: Shopping
+priority: 30
+'''
+R4 = '''# mode: most_specific
+field.description = regex_replace(field.description, "^APLPAY\\\\s+", "")
+
+[Coffee]
+match: startswith("ALFA")
+category: Food
+subcategory: Coffee
+priority: 20
+
+[Alfa Store]
+match: contains("ALFA STORE")
+category: Shopping
+tags: r4
+
+[Charlie]
+match: contains("CHARLIE")
+category: Fun
+priority: 60
+
+[Shop]
+match: contains("SHOP")
+category: Shopping
+priority: 30
+'''
 RBAD = '''[Coffee]
 category: Food
 '''
@@ -70,8 +121,9 @@ K2 = '''Pattern,Merchant,Category,Subcategory,Tags
 CHARLIE,Charlie Two,CsvTwo,Two,k2|legacy
 APLPAY\\s+ALFA,Alfa Two,CsvTwo,Two,
 '''
-CONTENT = {'R1': R1, 'R2': R2, 'RBAD': RBAD, 'K1': K1, 'K2': K2}
+CONTENT = {'R1': R1, 'R2': R2, 'R3': R3, 'R4': R4, 'RBAD': RBAD, 'K1': K1, 'K2': K2}
 MISSING = {'RMISSING', 'KMISSING'}
+ROK = ['R1', 'R2', 'R3', 'R4']
 
 TXNS = {
     't1': dict(description='APLPAY ALFA STORE #123', amount=50.0, date=datetime.date(2025, 3, 15),
@@ -127,8 +179,13 @@ def _classify(rules, transforms, tname):
 
 def _load(path):
     from tally.merchant_utils import get_all_rules, get_transforms
-    rules = get_all_rules(path)
-    transforms = get_transforms(path) if path else []
+    mode = 'first_match'
+    if path and os.path.exists(path):
+        with open(path) as f:
+            if f.readline().startswith('# mode: most_specific'):
+                mode = 'most_specific'
+    rules = get_all_rules(path, match_mode=mode)
+    transforms = get_transforms(path, match_mode=mode) if path else []
     return rules, transforms
 
 
@@ -136,7 +193,7 @@ def _engine_match(c, tname):
     from tally.merchant_engine import parse_merchants
     t = dict(TXNS[tname])
     t['field'] = copy.deepcopy(t['field'])
-    eng = parse_merchants(CONTENT[c])
+    eng = parse_merchants(CONTENT[c], 'most_specific' if CONTENT[c].startswith('# mode: most_specific') else 'first_match')
     r = eng.match(t, data_sources=copy.deepcopy(DATA_SOURCES))
     return [r.merchant, r.category, r.subcategory, sorted(r.tags), json.dumps(r.extra_fields, sort_keys=True, default=str)]
 
@@ -172,10 +229,10 @@ def _fresh_ref(item):
 
 def reference_table():
     items = []
-    for c in ['empty', 'R1', 'R2', 'K1', 'K2']:
+    for c in ['empty'] + ROK + ['K1', 'K2']:
         for t in TXNS:
             items.append(('classify', c, t))
-    for c in ['R1', 'R2']:
+    for c in ROK:
         for t in TXNS:
             items.append(('match', c, t))
     for e in EXPRS:
@@ -247,7 +304,7 @@ def _judge(ck, name, disk0, events, ref, origin):
             disk[ev['p']] = ev['c']
         elif o == 'load':
             c = 'none' if ev['p'] == 'none' else disk[ev['p']]
-            passed = c if c in ('R1', 'R2', 'K1', 'K2') else 'empty'
+            passed = c if c in ROK + ['K1', 'K2'] else 'empty'
             hist[-1]['loads_content'] = c
         elif o == 'classify':
             if 'by' in ev and origin == 'tlc' and ev['by'] != passed:
@@ -255,7 +312,7 @@ def _judge(ck, name, disk0, events, ref, origin):
             want = ref[('classify', passed, ev['t'])]
             if ev['obs'] != want:
                 prev_loads = [h.get('loads_content') for h in hist if h['op'] == 'load']
-                stale = next((c for c in reversed(prev_loads[:-1]) if c in ('R1', 'R2') and
+                stale = next((c for c in reversed(prev_loads[:-1]) if c in ROK and
                               ref[('classify', c, ev['t'])] == ev['obs']), None)
                 sig = {'site': 'normalize_merchant', 'clause': 'stale-engine' if stale else 'result',
                        'current_kind': 'csv' if passed.startswith('K') else ('rules' if passed.startswith('R') else 'none')}
@@ -284,21 +341,21 @@ def _judge(ck, name, disk0, events, ref, origin):
 
 
 def _random_behaviour(rnd, n):
-    disk0 = {'a.rules': rnd.choice(['R1', 'R2', 'RBAD', 'RMISSING']), 'b.rules': rnd.choice(['R1', 'R2', 'RBAD', 'RMISSING']),
+    disk0 = {'a.rules': rnd.choice(ROK + ['RBAD', 'RMISSING']), 'b.rules': rnd.choice(ROK + ['RBAD', 'RMISSING']),
              'c.csv': rnd.choice(['K1', 'K2', 'KMISSING'])}
     ops = []
     for _ in range(n):
         r = rnd.random()
         if r < 0.15:
             p = rnd.choice(list(disk0))
-            c = rnd.choice(['R1', 'R2', 'RBAD', 'RMISSING'] if p.endswith('.rules') else ['K1', 'K2', 'KMISSING'])
+            c = rnd.choice(ROK + ['RBAD', 'RMISSING'] if p.endswith('.rules') else ['K1', 'K2', 'KMISSING'])
             ops.append({'op': 'write', 'p': p, 'c': c})
         elif r < 0.45:
             ops.append({'op': 'load', 'p': rnd.choice(list(disk0) + ['none'])})
         elif r < 0.75:
             ops.append({'op': 'classify', 't': rnd.choice(list(TXNS))})
         elif r < 0.85:
-            ops.append({'op': 'match', 'c': rnd.choice(['R1', 'R2']), 't': rnd.choice(list(TXNS))})
+            ops.append({'op': 'match', 'c': rnd.choice(ROK), 't': rnd.choice(list(TXNS))})
         else:
             ops.append({'op': 'eval', 'e': rnd.choice(list(EXPRS)), 't': rnd.choice(list(TXNS))})
     return disk0, ops
